@@ -677,7 +677,10 @@ func (e *Exec) callFunc(st *State, fn *types.Func, recv *Val, args []Val, x *ast
 		return e.pureCall(st, name, sig, recv, args)
 	}
 	// body available?
-	if decl, pkg := e.prog.findDecl(fn); decl != nil && decl.Body != nil {
+	// generic bodies are written over type parameters; inlining them at a concrete instantiation would mix sorts
+	osig, _ := fn.Origin().Type().(*types.Signature)
+	generic := osig != nil && (osig.TypeParams() != nil || osig.RecvTypeParams() != nil)
+	if decl, pkg := e.prog.findDecl(fn); decl != nil && decl.Body != nil && !generic {
 		full := shortName(pkgPath) + "." + key
 		depthOK := len(e.frames) < 8
 		rec := false
